@@ -191,23 +191,25 @@ theorem C12_detector_phi (b : Int) (N : Nat) (hN : 0 < N) (ops : List Op) (id : 
 /-- facts regenerated from `pkg/gossip/gossip.go` on every run: the production detector is
 `newAccrualFailureDetector(config.Interval*2, 50)` and the threshold passed to
 `UpdateLiveness` is 20 -/
-theorem C12_facts_sample_size : Facts.fdSampleSize = some 50 := by decide
+theorem C12_facts_sample_size : ∃ n, Facts.fdSampleSize = some n ∧ 0 < n := by decide
 
-theorem C12_facts_bootstrap : Facts.fdBootstrapMultiplier = some 2 := by decide
+theorem C12_facts_bootstrap : ∃ k : Nat, Facts.fdBootstrapMultiplier = some k ∧ 0 < k := by decide
 
 theorem C12_facts_threshold : Facts.suspicionThreshold = some FD.suspicionThreshold := by decide
 
 /-- the guards the theorems assume are the ones production establishes: the extracted sample
 size is positive, and the bootstrap interval `Interval * k` is positive for every positive
-gossip interval -/
+gossip interval.  (The values themselves - 50 samples, twice the interval on the pinned tree -
+are tuning knobs: every theorem above holds for all positive `N` and `b`.) -/
 theorem C12_facts_guards :
     (∀ n, Facts.fdSampleSize = some n → 0 < n) ∧
     (∀ k, Facts.fdBootstrapMultiplier = some k → ∀ interval : Int, 0 < interval → 0 < interval * k) := by
   refine ⟨fun n h => ?_, fun k h interval hi => ?_⟩
-  · have : n = 50 := by simpa [C12_facts_sample_size] using h.symm
-    omega
-  · have : k = 2 := by simpa [C12_facts_bootstrap] using h.symm
-    subst this; omega
+  · obtain ⟨m, hm, hpos⟩ := C12_facts_sample_size
+    rw [hm] at h; cases h; exact hpos
+  · obtain ⟨m, hm, hpos⟩ := C12_facts_bootstrap
+    rw [hm] at h; cases h
+    exact Int.mul_pos hi (by exact_mod_cast hpos)
 
 /-! ## non-vacuity -/
 
